@@ -42,7 +42,13 @@ class Connection:
     self._check_segment_references(gfa)
     previous = gfa._search_duplicate(self)
     if previous:
-      if previous.virtual and \
+      if previous.virtual and self.record_type == "L" and \
+          previous.record_type == "L" and \
+          not previous.is_compatible(self.oriented_from, self.oriented_to,
+                                     self.alignment, True):
+        # a virtual link found by its identifier, which is another link
+        retval = self._process_not_unique(previous)
+      elif previous.virtual and \
           (isinstance(previous, gfapy.line.Unknown) or
            previous.record_type == self.record_type):
         retval = self._substitute_virtual_line(previous)
